@@ -220,6 +220,15 @@ func isErrorWriter(w io.WriteCloser) bool {
 	return ok
 }
 
+// IsLiteralCancelled: the error is the marker an encoder carries after the peer
+// refused a synchronising literal (as opposed to a failed write).
+//
+//@ pure
+func IsLiteralCancelled(err error) bool {
+	_, ok := err.(*LiteralCancelledError)
+	return ok
+}
+
 // Encoder.Literal: the "+" marker is written exactly for client-side literals
 // without continuation request; with a continuation request the payload
 // writer is handed out only after the server's go-ahead — a refusal (Wait
@@ -231,6 +240,8 @@ func isErrorWriter(w io.WriteCloser) bool {
 //@   ensures __called("ContinuationRequest.Wait") && __failed("ContinuationRequest.Wait") ==> isErrorWriter(result)
 //@   ensures sync != nil && !isErrorWriter(result) ==> __called("ContinuationRequest.Wait") && !__failed("ContinuationRequest.Wait")
 //@   ensures !isErrorWriter(result) ==> enc.literal
+//@   props C12:post
+//@   ensures[C12] __called("ContinuationRequest.Wait") && __failed("ContinuationRequest.Wait") && old(enc.err) == nil ==> IsLiteralCancelled(enc.err)
 
 // FlagGrammar: flag-keyword / flag-extension = ["\"] 1*ATOM-CHAR.
 //
@@ -266,6 +277,7 @@ func FlagGrammar(s string) bool {
 //@ func (enc *Encoder) setErr(err error)
 //@   ensures err != nil ==> enc.err != nil
 //@   ensures old(enc.err) != nil ==> enc.err == old(enc.err)
+//@   ensures old(enc.err) == nil ==> enc.err == err
 
 // Frames of the remaining decoder methods with an out-parameter.
 
